@@ -646,8 +646,8 @@ def _is_has_iterations(t) -> bool:
         return False
 
 
-def rule_r2(rep, program: Program):
-    r = rep.rule("R2", "step_size / metric are assigned only in constructors and Adapter methods; adapter methods run only under `adapters is not None` and from _finalize_adapters", floor=12)
+def rule_r2(rep, program: Program, only_global: bool = False):
+    r = rep.rule("R2", "step_size / metric are assigned only in constructors and Adapter methods; adapter methods run only under `adapters is not None` and from _finalize_adapters" + (" [the conditions inside _sample_chain / _finalize_adapters are decided by the abstract runs (R5)]" if only_global else ""), floor=6 if only_global else 12)
     for fn in program.all_functions():
         for n in ast.walk(fn.node):
             tgts = []
@@ -677,6 +677,8 @@ def rule_r2(rep, program: Program):
                 r.inst({"adapter call": f"{fn.qualname}: {norm(n.func)}"})
                 if fn.name not in allowed_callers and not (fn.cls is not None and fn.cls.is_subclass_of("Adapter")):
                     r.violate(PROP, f"{fn.qualname}:calls:{norm(n.func)}", "adapter methods are invoked outside the chain loop / stage finalisation", node=n, file=fn.file)
+    if only_global:
+        return r
     f = program.func_inlined("samplers", "_sample_chain", keep=SAMPLE_CHAIN_ANCHORS)
     cfg = CFG(f.node)
 
@@ -841,7 +843,9 @@ def run(rep, program: Program, tier: str) -> None:
     from . import samplersim
 
     samplersim.with_fallback(rep, program, tier, "R5", rule_r1, rep, program)
-    samplersim.superseded(rep, program, tier, [("R2", "adapter.update runs exactly when the transition has adapters; finalisation is guarded by non-emptiness and visits every (transition, adapter) pair")], "R5", rule_r2, rep, program)
+    # who may write step_size / metric and who may call adapter methods is a whole-program scan (always structural);
+    # the conditions inside _sample_chain / _finalize_adapters are decided by the abstract runs when available
+    rep.isolate(rule_r2, rep, program, only_global=samplersim.available(program, tier))
     rep.isolate(rule_r3, rep, program)
     from . import samplersim
 
